@@ -11,7 +11,8 @@
    which: `tie: correspondence-only (translator refused ...)`); for it the statements below say nothing new. *)
 From Coq Require Import List ZArith QArith Bool.
 From DV Require Import Base.PyList Model.C05_Nsga2 Model.C05_Spec Model.C05_CrowdSpec Model.C05_Full Model.C05_GenRt.
-From DV Require Import Gen.C05_gen Proofs.C05_gen_equiv Proofs.C05_gen_props.
+From DV Require Model.C04_NDSort.
+From DV Require Import Gen.C05_gen Proofs.C05_gen_equiv Proofs.C05_gen_nd_equiv Proofs.C05_gen_props.
 Import ListNotations.
 Local Open Scope nat_scope.
 
@@ -119,52 +120,75 @@ Theorem C05_gen_crowding_extremes_inf : forall (front : list (ind Q)) t u t' (i 
 Proof. exact gen_crowding_extremes_inf. Qed.
 Print Assumptions C05_gen_crowding_extremes_inf.
 
-(* ---- end to end: the regenerated selNSGA2 over property C04's models of the two sorters ---- *)
+(* ---- the sorter: the regenerated sortNondominated computes property C04's model sort_nd ---- *)
 
-Theorem C05_gen_model_sorters_ok : forall o nd (pop : list (ind (V o))) k,
-  pop_ok pop -> nd_ok nd pop -> sorters_ok o (model_sorter o NdStandard) (model_sorter o NdLog) nd pop k.
-Proof. exact model_sorters_ok. Qed.
-Print Assumptions C05_gen_model_sorters_ok.
+Theorem C05_gen_sortNondominated_is_model : forall o (pop : list C04_NDSort.ind) (k : Z) (first_front_only : bool) t r t',
+  gen_sortNondominated o pop k first_front_only t = Some (r, t') ->
+  C04_NDSort.sort_nd pop k first_front_only = Some r /\ t' = t.
+Proof. exact gen_sortnd_refines. Qed.
+Print Assumptions C05_gen_sortNondominated_is_model.
 
-Theorem C05_gen_full_is_model : forall o nd (pop : list (ind (V o))) k t r t',
-  pop_ok pop -> nd_ok nd pop ->
-  gen_selNSGA2 o (model_sorter o NdStandard) (model_sorter o NdLog) pop (Z.of_nat k) nd t = Some (r, t') ->
+(* as a back-end of selNSGA2 (through the bridge of Model/C05_Full.v): it returns what nd_fronts NdStandard returns;
+   together with C04's model of the log-time sorter these back-ends "refine" the ones of the end-to-end model,
+   and so do, trivially, C04's two models themselves *)
+Theorem C05_gen_regenerated_backends_refine : forall o nd (pop : list (ind (V o))) k,
+  backends_refine o (gen_std_sorter o) (model_sorter o NdLog) nd pop k.
+Proof. exact gen_backends_refine. Qed.
+Print Assumptions C05_gen_regenerated_backends_refine.
+
+Theorem C05_gen_model_backends_refine : forall o nd (pop : list (ind (V o))) k,
+  backends_refine o (model_sorter o NdStandard) (model_sorter o NdLog) nd pop k.
+Proof. exact model_backends_refine. Qed.
+Print Assumptions C05_gen_model_backends_refine.
+
+(* the contract `sorters_ok` of the first group of theorems, proved for such back-ends (C04's theorems) *)
+Theorem C05_gen_backends_ok : forall o (s_std s_log : sorter o) nd (pop : list (ind (V o))) k,
+  pop_ok pop -> nd_ok nd pop -> backends_refine o s_std s_log nd pop k -> sorters_ok o s_std s_log nd pop k.
+Proof. exact refine_sorters_ok. Qed.
+Print Assumptions C05_gen_backends_ok.
+
+(* ---- end to end: the regenerated selNSGA2 over back-ends that refine C04's models
+        (pop_ok / nd_ok: the preconditions of the C05_full_ theorems) ---- *)
+
+Theorem C05_gen_full_is_model : forall o (s_std s_log : sorter o) nd (pop : list (ind (V o))) k t r t',
+  pop_ok pop -> nd_ok nd pop -> backends_refine o s_std s_log nd pop k ->
+  gen_selNSGA2 o s_std s_log pop (Z.of_nat k) nd t = Some (r, t') ->
   sel_nsga2_full o nd pop k = Some r.
 Proof. exact gen_full. Qed.
 Print Assumptions C05_gen_full_is_model.
 
-Theorem C05_gen_full_size : forall o nd (pop : list (ind (V o))) k t r t',
-  pop_ok pop -> nd_ok nd pop ->
-  gen_selNSGA2 o (model_sorter o NdStandard) (model_sorter o NdLog) pop (Z.of_nat k) nd t = Some (r, t') ->
+Theorem C05_gen_full_size : forall o (s_std s_log : sorter o) nd (pop : list (ind (V o))) k t r t',
+  pop_ok pop -> nd_ok nd pop -> backends_refine o s_std s_log nd pop k ->
+  gen_selNSGA2 o s_std s_log pop (Z.of_nat k) nd t = Some (r, t') ->
   length r = Nat.min k (length pop).
 Proof. exact gen_full_size. Qed.
 Print Assumptions C05_gen_full_size.
 
-Theorem C05_gen_full_refs_nodup : forall o nd (pop : list (ind (V o))) k t r t',
-  pop_ok pop -> nd_ok nd pop ->
-  gen_selNSGA2 o (model_sorter o NdStandard) (model_sorter o NdLog) pop (Z.of_nat k) nd t = Some (r, t') ->
+Theorem C05_gen_full_refs_nodup : forall o (s_std s_log : sorter o) nd (pop : list (ind (V o))) k t r t',
+  pop_ok pop -> nd_ok nd pop -> backends_refine o s_std s_log nd pop k ->
+  gen_selNSGA2 o s_std s_log pop (Z.of_nat k) nd t = Some (r, t') ->
   (forall x, In x r -> In x pop) /\ NoDup (uids r).
 Proof. exact gen_full_refs_nodup. Qed.
 Print Assumptions C05_gen_full_refs_nodup.
 
-Theorem C05_gen_full_front_priority : forall o nd (pop : list (ind (V o))) k t r t',
-  pop_ok pop -> nd_ok nd pop ->
-  gen_selNSGA2 o (model_sorter o NdStandard) (model_sorter o NdLog) pop (Z.of_nat k) nd t = Some (r, t') ->
+Theorem C05_gen_full_front_priority : forall o (s_std s_log : sorter o) nd (pop : list (ind (V o))) k t r t',
+  pop_ok pop -> nd_ok nd pop -> backends_refine o s_std s_log nd pop k ->
+  gen_selNSGA2 o s_std s_log pop (Z.of_nat k) nd t = Some (r, t') ->
   forall x y, In x r -> In y pop -> ~ In (uid y) (uids r) -> depth pop x <= depth pop y.
 Proof. exact gen_full_front_priority. Qed.
 Print Assumptions C05_gen_full_front_priority.
 
-Theorem C05_gen_full_one_partial_front : forall o nd (pop : list (ind (V o))) k t r t',
-  pop_ok pop -> nd_ok nd pop ->
-  gen_selNSGA2 o (model_sorter o NdStandard) (model_sorter o NdLog) pop (Z.of_nat k) nd t = Some (r, t') ->
+Theorem C05_gen_full_one_partial_front : forall o (s_std s_log : sorter o) nd (pop : list (ind (V o))) k t r t',
+  pop_ok pop -> nd_ok nd pop -> backends_refine o s_std s_log nd pop k ->
+  gen_selNSGA2 o s_std s_log pop (Z.of_nat k) nd t = Some (r, t') ->
   exists c, forall y, In y pop ->
     (depth pop y < c -> In (uid y) (uids r)) /\ (c < depth pop y -> ~ In (uid y) (uids r)).
 Proof. exact gen_full_one_partial_front. Qed.
 Print Assumptions C05_gen_full_one_partial_front.
 
-Theorem C05_gen_full_cut_explicit : forall o nd (pop : list (ind (V o))) k t r t',
-  pop_ok pop -> nd_ok nd pop ->
-  gen_selNSGA2 o (model_sorter o NdStandard) (model_sorter o NdLog) pop (Z.of_nat k) nd t = Some (r, t') ->
+Theorem C05_gen_full_cut_explicit : forall o (s_std s_log : sorter o) nd (pop : list (ind (V o))) k t r t',
+  pop_ok pop -> nd_ok nd pop -> backends_refine o s_std s_log nd pop k ->
+  gen_selNSGA2 o s_std s_log pop (Z.of_nat k) nd t = Some (r, t') ->
   0 < k -> forall m, cut_at pop k m ->
   (forall x, In x r -> depth pop x <= m) /\
   (forall y, In y pop -> depth pop y < m -> In (uid y) (uids r)) /\
@@ -173,24 +197,78 @@ Theorem C05_gen_full_cut_explicit : forall o nd (pop : list (ind (V o))) k t r t
 Proof. exact gen_full_cut_explicit. Qed.
 Print Assumptions C05_gen_full_cut_explicit.
 
-Theorem C05_gen_full_all_when_k_ge_n : forall o nd (pop : list (ind (V o))) k t r t',
-  pop_ok pop -> nd_ok nd pop ->
-  gen_selNSGA2 o (model_sorter o NdStandard) (model_sorter o NdLog) pop (Z.of_nat k) nd t = Some (r, t') ->
+Theorem C05_gen_full_crowding_cut : forall o (s_std s_log : sorter o) nd (pop : list (ind (V o))) k t r t',
+  pop_ok pop -> nd_ok nd pop -> backends_refine o s_std s_log nd pop k ->
+  gen_selNSGA2 o s_std s_log pop (Z.of_nat k) nd t = Some (r, t') ->
+  forall P : D o -> Prop,
+  (forall a b, P a -> P b -> dltb o a b = true -> dltb o b a = false) ->
+  (forall a b c, P a -> P b -> P c -> dltb o b a = false -> dltb o c b = false -> dltb o c a = false) ->
+  forall fronts, nd_fronts nd pop k = Some fronts ->
+  Forall P (assign_crowding o (last fronts [])) ->
+  forall x dx y dy,
+    In x (last fronts []) -> In y (last fronts []) ->
+    t' (uid x) = Some dx -> t' (uid y) = Some dy ->
+    In (uid x) (uids r) -> ~ In (uid y) (uids r) -> dltb o dx dy = false.
+Proof. exact gen_full_crowding_cut. Qed.
+Print Assumptions C05_gen_full_crowding_cut.
+
+Theorem C05_gen_full_all_when_k_ge_n : forall o (s_std s_log : sorter o) nd (pop : list (ind (V o))) k t r t',
+  pop_ok pop -> nd_ok nd pop -> backends_refine o s_std s_log nd pop k ->
+  gen_selNSGA2 o s_std s_log pop (Z.of_nat k) nd t = Some (r, t') ->
   length pop <= k -> Permutation.Permutation (uids r) (uids pop).
 Proof. exact gen_full_all_when_k_ge_n. Qed.
 Print Assumptions C05_gen_full_all_when_k_ge_n.
 
-Theorem C05_gen_full_rank_ordered : forall o nd (pop : list (ind (V o))) k t r t',
-  pop_ok pop -> nd_ok nd pop ->
-  gen_selNSGA2 o (model_sorter o NdStandard) (model_sorter o NdLog) pop (Z.of_nat k) nd t = Some (r, t') ->
+Theorem C05_gen_full_rank_ordered : forall o (s_std s_log : sorter o) nd (pop : list (ind (V o))) k t r t',
+  pop_ok pop -> nd_ok nd pop -> backends_refine o s_std s_log nd pop k ->
+  gen_selNSGA2 o s_std s_log pop (Z.of_nat k) nd t = Some (r, t') ->
   Sorting.Sorted.StronglySorted (fun x y => depth pop x <= depth pop y) r.
 Proof. exact gen_full_rank_ordered. Qed.
 Print Assumptions C05_gen_full_rank_ordered.
 
 (* the attributes left behind: every front the sort produced got the model's distances *)
-Theorem C05_gen_full_attributes : forall o nd (pop : list (ind (V o))) k t r t',
-  pop_ok pop -> nd_ok nd pop ->
-  gen_selNSGA2 o (model_sorter o NdStandard) (model_sorter o NdLog) pop (Z.of_nat k) nd t = Some (r, t') ->
+Theorem C05_gen_full_attributes : forall o (s_std s_log : sorter o) nd (pop : list (ind (V o))) k t r t',
+  pop_ok pop -> nd_ok nd pop -> backends_refine o s_std s_log nd pop k ->
+  gen_selNSGA2 o s_std s_log pop (Z.of_nat k) nd t = Some (r, t') ->
   exists fronts, nd_fronts nd pop k = Some fronts /\ t' = write_fronts o t fronts.
 Proof. exact gen_full_attributes. Qed.
 Print Assumptions C05_gen_full_attributes.
+
+(* ---- everything regenerated: selNSGA2(individuals, k, nd) with the regenerated sortNondominated as the
+        'standard' back-end (the log-time back-end is C04's model) -- the headline clauses spelled out ---- *)
+
+Theorem C05_gen_e2e_is_model : forall o nd (pop : list (ind (V o))) k t r t',
+  pop_ok pop -> nd_ok nd pop ->
+  gen_selNSGA2 o (gen_std_sorter o) (model_sorter o NdLog) pop (Z.of_nat k) nd t = Some (r, t') ->
+  sel_nsga2_full o nd pop k = Some r.
+Proof. exact gen_e2e_is_model. Qed.
+Print Assumptions C05_gen_e2e_is_model.
+
+Theorem C05_gen_e2e_size : forall o nd (pop : list (ind (V o))) k t r t',
+  pop_ok pop -> nd_ok nd pop ->
+  gen_selNSGA2 o (gen_std_sorter o) (model_sorter o NdLog) pop (Z.of_nat k) nd t = Some (r, t') ->
+  length r = Nat.min k (length pop).
+Proof. exact gen_e2e_size. Qed.
+Print Assumptions C05_gen_e2e_size.
+
+Theorem C05_gen_e2e_refs_nodup : forall o nd (pop : list (ind (V o))) k t r t',
+  pop_ok pop -> nd_ok nd pop ->
+  gen_selNSGA2 o (gen_std_sorter o) (model_sorter o NdLog) pop (Z.of_nat k) nd t = Some (r, t') ->
+  (forall x, In x r -> In x pop) /\ NoDup (uids r).
+Proof. exact gen_e2e_refs_nodup. Qed.
+Print Assumptions C05_gen_e2e_refs_nodup.
+
+Theorem C05_gen_e2e_front_priority : forall o nd (pop : list (ind (V o))) k t r t',
+  pop_ok pop -> nd_ok nd pop ->
+  gen_selNSGA2 o (gen_std_sorter o) (model_sorter o NdLog) pop (Z.of_nat k) nd t = Some (r, t') ->
+  forall x y, In x r -> In y pop -> ~ In (uid y) (uids r) -> depth pop x <= depth pop y.
+Proof. exact gen_e2e_front_priority. Qed.
+Print Assumptions C05_gen_e2e_front_priority.
+
+Theorem C05_gen_e2e_one_partial_front : forall o nd (pop : list (ind (V o))) k t r t',
+  pop_ok pop -> nd_ok nd pop ->
+  gen_selNSGA2 o (gen_std_sorter o) (model_sorter o NdLog) pop (Z.of_nat k) nd t = Some (r, t') ->
+  exists c, forall y, In y pop ->
+    (depth pop y < c -> In (uid y) (uids r)) /\ (c < depth pop y -> ~ In (uid y) (uids r)).
+Proof. exact gen_e2e_one_partial_front. Qed.
+Print Assumptions C05_gen_e2e_one_partial_front.
